@@ -615,17 +615,26 @@ def make_cases(ctx, thorough):
     return cases
 
 
+FLOAT_AXIOMS = ("FloatAxioms.Prim2SF_valid", "FloatAxioms.SF2Prim_Prim2SF", "FloatAxioms.Prim2SF_SF2Prim", "FloatAxioms.ltb_spec",
+                "FloatAxioms.leb_spec", "FloatAxioms.add_spec", "FloatAxioms.mul_spec", "FloatAxioms.eqb_spec", "FloatAxioms.compare_spec",
+                "ClassicalDedekindReals.sig_forall_dec", "ClassicalDedekindReals.sig_not_dec", "Classical_Prop.classic",
+                "FunctionalExtensionality.functional_extensionality_dep")
+
+
 def run(ctx):
     thorough = ctx.tier == "thorough"
     rng = ctx.rng
-    ctx.proofs()
+    # PropsFloat.v: binary64 instances through Flocq; they rest on the standard library's specification of the primitive
+    # float operations (FloatAxioms) and on the classical reals, each axiom named in the evidence
+    ctx.proofs(["C10/Props.v", "C10/PropsTie.v", "C10/PropsFloat.v"], extra_axioms=FLOAT_AXIOMS)
+    ctx.assumptions += ["axioms used only by *PropsFloat.v: " + ", ".join(FLOAT_AXIOMS)]
     import scipy.sparse as sp
     from quantecon.markov.core import MarkovChain, mc_sample_path
     from quantecon import DiscreteRV
     import quantecon.random.utilities as qru
     ctx.trusted += ["float facts F1 (0<=u<1, c>0 normal => u*c < c), F2 (adding a zero does not change comparisons), "
-                    "F3 (order/monotone cumulative sums) are hypotheses of C10_path_valid_float / C10_simulate_indices_float / C10_path_sparse_valid / C10_bracket_least, proved for Q, "
-                    "spot-checked by vm_compute for binary64",
+                    "F3 (order/monotone cumulative sums) are hypotheses of the generic theorems in Props.v; proved for Q there and for binary64 in "
+                    "PropsFloat.v through Flocq (axioms: FloatAxioms.*, classical reals)",
                     "NumPy ndarray.searchsorted(side='right') modelled by its specification on sorted arrays",
                     "NUMBA_BOUNDSCHECK=1 as the detector of out-of-bounds reads"]
 
